@@ -116,7 +116,7 @@ def main():
         elif fault == 'arr_huge':
             wr(struct.pack('<BBHI', 1, 0x10, 0, 7) + b'\x07\x01\xff\xff\xff\xff\x00')
         elif fault == 'deep_nest':
-            depth = 400000
+            depth = 200000      # one C stack frame per level without a limit: far beyond an 8 MiB stack
             pl = b'\x07\x01\x01\x00\x00\x00' * depth + b'\x00'
             wr(struct.pack('<BBHI', 1, 0x10, 0, len(pl)) + pl)
         elif fault == 'err_long':
